@@ -118,7 +118,8 @@ def sanClass (name : Str) : Str :=
     | d :: _ => if isDigitA d then '_' :: c else c
     | [] => c
   let l := c.map lowerA
-  if isKeyword l || isReserved l then c ++ ['_'] else c
+  -- `keyword.iskeyword(cls_name.lower()) or keyword.iskeyword(cls_name) or cls_name.lower() in RESERVED_NAMES` (F28 repaired)
+  if isKeyword l || isKeyword c || isReserved l then c ++ ['_'] else c
 
 /-! ### `sanitize_method_name` as a pipeline of structural passes -/
 
